@@ -1126,6 +1126,13 @@ func (env *LEnv) checkLimitsSlow(ctx context.Context) *LVal {
 // Deprecated: Use EvalContext for cancellation and timeout support.
 func (env *LEnv) Eval(v *LVal) *LVal {
 	defer env.Runtime.beginEval()()
+	// Evaluating a sub-form moves the environment's current location to that
+	// sub-form.  An operator that evaluates a sub-form and then rejects its
+	// own arguments (cond: "argument is not a pair", let, dotimes, assert)
+	// builds its error in this same environment afterwards, so the location
+	// is put back to the operator's own form when the sub-form is done.
+	prev := env.loc
+	defer func() { env.loc = prev }()
 	return env.eval(env.evalCtx, v)
 }
 
